@@ -311,6 +311,49 @@ func subCLI(out string, seed uint64, tier string, arg string) {
 		}
 		rep.sample(map[string]interface{}{"object": o.Name})
 	}
+	// -config: the configured options must reach the lints with and without selection flags ("the same lint results as the
+	// library with the same lint selection" includes the same configuration)
+	for _, o := range certs {
+		if !strings.Contains(o.Name, "rsaFermatFactorizationSusceptible") {
+			continue
+		}
+		cfgText := "[e_rsa_fermat_factorization]\nRounds = 0\n"
+		cfgFile := filepath.Join(tmp, "rounds0.toml")
+		os.WriteFile(cfgFile, []byte(cfgText), 0o644)
+		pemF, _, _ := writeForms(o, "fermat")
+		for _, sel := range []struct {
+			args []string
+			fo   lint.FilterOptions
+		}{
+			{nil, lint.FilterOptions{ExcludeSources: lint.SourceList{"NoSuchSourceAtAll"}}},
+			{[]string{"-includeNames", "e_rsa_fermat_factorization"}, lint.FilterOptions{IncludeNames: []string{"e_rsa_fermat_factorization"}}},
+			{[]string{"-includeSources", "Community"}, lint.FilterOptions{IncludeSources: lint.SourceList{lint.Community}}},
+			{[]string{"-excludeNames", "e_dnsname_not_valid_tld"}, lint.FilterOptions{ExcludeNames: []string{"e_dnsname_not_valid_tld"}}},
+			{[]string{"-nameFilter", "fermat"}, lint.FilterOptions{NameFilter: regexp.MustCompile("fermat")}},
+			{[]string{"-excludeSources", "RFC5280"}, lint.FilterOptions{ExcludeSources: lint.SourceList{lint.RFC5280}}},
+		} {
+			freg, err := g.Filter(sel.fo)
+			if err != nil {
+				continue
+			}
+			cfg, err := lint.NewConfigFromString(cfgText)
+			if err != nil {
+				continue
+			}
+			freg.SetConfiguration(cfg)
+			rsF, pF := lintObj(o.reparse(), freg)
+			if pF != "" || rsF == nil {
+				continue
+			}
+			if r := rsF.Results["e_rsa_fermat_factorization"]; r == nil || r.Status != lint.Pass {
+				rep.Notes = append(rep.Notes, "the Rounds = 0 configuration does not change the library verdict; -config cases are not discriminating")
+			}
+			args := append([]string{"-config", cfgFile}, sel.args...)
+			check("config "+strings.Join(sel.args, " "), runCLI(bin, nil, append(args, pemF)...), libJSON(rsF), o, "zlint "+strings.Join(args, " ")+" x.pem")
+			rep.count("config-case")
+		}
+		break
+	}
 	// CRLs via their PEM armor
 	for i, o := range crls {
 		if i >= 6 && tier != "thorough" {
